@@ -468,14 +468,16 @@ fn main() {
         for k in 0..nshapes {
             let shape = if n >= 500 || !args.thorough { shapes[(k + rng.below(shapes.len() as u64) as usize) % shapes.len()] } else { shapes[k] };
             let st = stakes(shape, n, &mut rng);
-            let npos = if n >= 500 { 1 } else if args.thorough { 3 } else { 2 };
-            let positions: Vec<(u64, usize)> = (0..npos)
-                .map(|j| match j {
-                    0 => (rng.below(4 * n as u64 + 8), rng.below(4) as usize),
-                    1 => (rng.next() >> rng.range(1, 40), rng.below(1024) as usize),
-                    _ => (rng.below(1 << 20), 1023),
-                })
-                .collect();
+            // positions sharing the slot (different slice) and sharing the slice (different slot): a
+            // cache keyed by too little would mix them up
+            let (a, b) = if rng.chance(1, 2) { (rng.below(4 * n as u64 + 8), rng.below(4) as usize) } else { (rng.next() >> rng.range(1, 40), rng.below(1023) as usize) };
+            let mut positions: Vec<(u64, usize)> = vec![(a, b), (a, b + 1)];
+            if n < 500 {
+                positions.push((a + 1, b));
+            }
+            if args.thorough && n < 500 {
+                positions.push((rng.below(1 << 20), 1023));
+            }
             rotor_case(&mut cx, &mut rng, "new", 64, shape, &st, &positions, Rotor::new);
             rotor_case(&mut cx, &mut rng, "new_fa1", 64, shape, &st, &positions, Rotor::new_fa1);
         }
@@ -505,14 +507,12 @@ fn main() {
             }
             let shape = if n >= 500 { *rng.pick(&["equal1", "heavy", "random"]) } else { *rng.pick(&["equal1", "small", "heavy", "whale", "random", "somezero"]) };
             let st = stakes(shape, n, &mut rng);
-            let npos = if n >= 500 { 1 } else { 3 };
-            let positions: Vec<(u64, usize, usize)> = (0..npos)
-                .map(|j| match j {
-                    0 => (rng.below(4 * n as u64 + 8), rng.below(4) as usize, rng.below(64) as usize),
-                    1 => (rng.next() >> rng.range(1, 40), rng.below(1024) as usize, rng.below(64) as usize),
-                    _ => (rng.below(1 << 20), 1023, 63),
-                })
-                .collect();
+            let (a, b, c) = if rng.chance(1, 2) { (rng.below(4 * n as u64 + 8), rng.below(4) as usize, rng.below(64) as usize) } else { (rng.next() >> rng.range(1, 40), rng.below(1023) as usize, rng.below(64) as usize) };
+            let mut positions: Vec<(u64, usize, usize)> = vec![(a, b, c), (a, b + 1, c)];
+            if n < 500 {
+                positions.push((a + 1, b, c));
+                positions.push((a, b, (c + 1) % 64));
+            }
             turbine_case(&mut cx, &mut rng, shape, &st, f, &positions);
         }
     }
